@@ -5,15 +5,22 @@ font-list; input PDUs; disconnect ultimatum) over an in-memory scripted server, 
 all of Unicode; every frame is judged by (a) gen/strictpdu.py, strict parsers written from the standards,
 (b) the strict parsers of coq/StrictPdu.v, extracted, applied to the IMPLEMENTATION's bytes, and (c) compared
 with what the configuration says must have been sent; the model's emitters (coq/ClientPdus.v) must produce the
-same bytes (the diff of the pipeline)."""
+same bytes (the diff of the pipeline).
+Network level authentication: the real crate's NTLM NEGOTIATE (`negotiate`), AUTHENTICATE (`auth`, Ntlm::read_challenge_message
+under preset randomness), the four CredSSP DER writers (`cssp req|auth|cred|info`) and whole cssp_connect exchanges over a
+scripted transport (`csspgate`); every token / TSRequest / (unsealed) TSCredentials is judged by the python strict parsers of
+gen/strictpdu.py (MS-NLMP / MS-CSSP), by the extracted strict parsers of coq/StrictNla.v, and compared with the configuration;
+the model (coq/Ntlm.v, CsspGate.v, CsspGateExec.v) must produce the same bytes."""
 import os, subprocess, struct
 from common import *
 from rdp import *
 from rdpconn import *
 import strictpdu as S
+import nlmp, credssp
 
 GROUP = "pdus"
-MODEL_FILES = ["coq/ClientPdus.v", "coq/Msg.v", "coq/LayoutsGlobal.v", "coq/LayoutsConnect.v", "coq/Global.v", "coq/Tpkt.v"]
+MODEL_FILES = ["coq/ClientPdus.v", "coq/Msg.v", "coq/LayoutsGlobal.v", "coq/LayoutsConnect.v", "coq/Global.v", "coq/Tpkt.v",
+               "coq/Ntlm.v", "coq/LayoutsNtlmAuth.v", "coq/Utf.v", "coq/CsspGate.v", "coq/CsspGateExec.v", "coq/NtlmSeal.v"]
 PROFILES = ["debug", "release"]
 RULE = ("client name / domain / user / password from the classes {empty, ASCII 1..64, Latin-1, BMP CJK, non-BMP (surrogate pairs), mixed, "
         "embedded NUL, scalar-value boundaries U+7F/80/7FF/800/D7FF/E000/FFFF/10000/10FFFF, 14..17 UTF-16 code units with and without a "
@@ -24,15 +31,28 @@ RULE = ("client name / domain / user / password from the classes {empty, ASCII 1
         "boundaries; pointer / keyboard events over 16-bit boundaries and every button x press state; connection requests for every "
         "offered-protocol mask in a boundary set x restricted-admin.  Every frame the implementation wrote is parsed by the python "
         "strict parsers AND by the extracted Coq strict parsers, the two decodes must agree, must equal the configuration's values, and "
-        "the frame sequence must be the mandated one.  Non-trivial = a run that emitted at least one frame; distinct = distinct "
-        "(op, string classes, version class, number of events, outcome).")
+        "the frame sequence must be the mandated one.  Network level authentication: domain / user / password from {empty, ASCII, "
+        "Latin-1, BMP CJK, non-BMP, mixed, long (300)} x password and NT-hash mode x all 16 combinations of the CHALLENGE flags "
+        "UNICODE / VERSION / TARGET_INFO / KEY_EXCH, target-info blocks from the bare timestamp to an NT response of exactly 65535 "
+        "bytes (sent) and 65536 (refused), every AV id next to the timestamp; the four CredSSP DER writers on payload sizes across "
+        "every DER length form (0, 1, 127, 128, 255, 256, 65535, 65536); whole cssp_connect exchanges (password / hash / "
+        "restricted admin, UNICODE and OEM, VERSION on / off) whose third message is unsealed with the MS-NLMP reference.  Every "
+        "token, TSRequest and TSCredentials plaintext is parsed by the python strict parser AND by the extracted Coq strict parser "
+        "(they must agree) and the decoded fields must equal the configuration and the CHALLENGE.  Non-trivial = a run that "
+        "emitted at least one frame / token; distinct = distinct (op, string classes, version class / flag combination, number "
+        "of events, outcome).")
 TRUSTED_BASE = ["Coq 8.16.1 kernel (vm_compute in the fixed-layout lemmas and the non-vacuity run)",
                 "hand-written model coq/ClientPdus.v (+ Msg.v, LayoutsGlobal.v, LayoutsConnect.v, Global.v, Tpkt.v) tied to /repo by this byte-for-byte correspondence run",
                 "coq/StrictPdu.v: the reading of X.224 / T.125 / T.124 / MS-RDPBCGR embodied in the strict parsers (the spec of the theorems)",
+                "coq/StrictNla.v: the reading of MS-NLMP 2.2.1.1 / 2.2.1.3 / 2.2.2.1 / 2.2.2.7 and MS-CSSP 2.2.1 / 2.2.1.2 (X.690 DER) embodied in the strict parsers of the NTLM tokens and CredSSP structures; readings accepted both ways are listed in its header",
+                "hand-written models coq/Ntlm.v + LayoutsNtlmAuth.v (NTLM handshake), coq/CsspGate.v + CsspGateExec.v (cssp_connect, the four DER writers = transliterated yasna output) tied to /repo by the byte-for-byte run of the ops negotiate / auth / cssp / csspgate; harness/src/ntlmauth.rs, codec18_der.rs, csspgate.rs and the hooks model::rnd::verif, model::link::verif, cssp::verif_create_ts_*",
+                "gen/nlmp.py (MS-NLMP reference used to UNSEAL the third CredSSP message), gen/credssp.py (server replies)",
                 "extraction (ExtrOcamlBasic) + ocaml/pdus/driver.ml (UTF-8 decoding of case lines, rendering)", "Rust harness/src/pdus.rs + hooks x224::Client::verif_new, RdpClient::verif_new",
                 "gen/strictpdu.py (independent python strict parsers, the oracle), gen/rdpconn.py + gen/rdp.py (scripted server)",
                 "external code modelled, not verified: yasna's DER writer (connect-initial envelope, transliterated in ClientPdus.v and compared on every case), Rust's str / encode_utf16"]
-ASSUMPTIONS = ["NTLM NEGOTIATE / AUTHENTICATE tokens and the CredSSP TSRequest / TSCredentials structures are NOT covered here (C15 / C07 own those layers): C04 is claimed for the RDP layers, theorem names carry _partial where the statement depends on it",
+ASSUMPTIONS = ["NLA theorems: any md5 / hmac with 16-byte digests, any uppercase mapping, any decoder of the server's replies, any reply stream; the CHALLENGE ranges over challenge_bytes c with wf_challenge c (every field any value), its echoed parts well formed: TargetInfo = AV pairs with ids 1..10 closed by a zero-length MsvAvEOL with nothing after it, the MsvAvTimestamp the client picks 8 bytes -- the complement is the known finding C04-echo (theorem C04_echoed_challenge_refuted)",
+               "names are decoded as UTF-16LE under NTLMSSP_NEGOTIATE_UNICODE; without the flag the client sends the String's UTF-8 bytes where MS-NLMP wants the OEM code page: identical for ASCII names, not decidable by any parser for others (observation of C15, not judged here)",
+               "sizes of the sealed blobs / public key below 2^56 bytes (usize) for the DER length lemmas; TSPasswordCreds strings are in the character set of the CHALLENGE (MS-CSSP does not fix one in the ASN.1)",
                "PDUs described by a PER length are covered up to 16383 bytes of user data (one X.691 fragment); beyond that the client uses the de-facto 15-bit RDP form; the property's quantifier (1..64 code points per string) stays far below",
                "the server-imposed maximum sizes of the credential strings (512 bytes in MS-RDPBCGR 2.2.1.11.1.1) are server policy, not part of well-formedness",
                "the two channel joins are emitted in HashMap order; the harness repeats the run until the I/O channel is asked first and the model emits them in that order",
@@ -110,6 +130,295 @@ def rand_event(rng):
     if rng.random() < 0.6: return "P:%d:%d:%d:%d" % (v(), v(), rng.randrange(4), rng.randrange(2))
     return "K:%d:%d" % (v(), rng.randrange(2))
 
+
+# ================================================================== network level authentication: case lines
+NEG_TOKEN = bytes.fromhex("4e544c4d53535000010000003582086000000000000000000000000000000000")
+F_UNI, F_VER, F_TI, F_KX = 0x00000001, 0x02000000, 0x00800000, 0x40000000
+FLAG_COMBOS = [(nlmp.CLIENT_FLAGS & ~(F_UNI | F_KX)) | (F_UNI if u else 0) | (F_VER if v else 0) | (F_TI if t else 0) | (F_KX if k else 0)
+               for u in (1, 0) for v in (0, 1) for t in (1, 0) for k in (1, 0)]
+
+def dcps(s): return ".".join("%x" % ord(c) for c in s) or "-"
+def uncps(x): return "" if x == "-" else "".join(chr(int(c, 16)) for c in x.split("."))
+def rbytes(rng, n): return bytes(rng.randrange(256) for _ in range(n))
+
+# credential classes; letters whose uppercase differs between Rust and python (C15's "special" class) are left out:
+# the AUTHENTICATE layout does not depend on the case mapping
+NLA_CLASSES = {
+    "empty": lambda rng: "",
+    "ascii": lambda rng: "".join(rng.choice("abcXYZ019_-. $") for _ in range(rng.randrange(1, 12))),
+    "latin1": lambda rng: "".join(rng.choice("éàüñÆøçÿ¿") for _ in range(rng.randrange(1, 8))),
+    "cjk": lambda rng: "".join(rng.choice("日本語中文한국어漢字") for _ in range(rng.randrange(1, 8))),
+    "nonbmp": lambda rng: "".join(rng.choice("\U0001F600\U00010437\U0001D11E\U00020BB7\U0010FFFF\U00010000\U0001D800") for _ in range(rng.randrange(1, 5))),
+    "mixed": lambda rng: "".join(rng.choice("aBcDéÉσΣж\U00010437Q日\U0001F600") for _ in range(rng.randrange(2, 12))),
+    "long": lambda rng: "".join(rng.choice("abcDEFé日\U0001F600") for _ in range(300)),
+}
+
+def nla_target_info(rng, kind="typical"):
+    ts = (7, rbytes(rng, 8))
+    if kind == "bare": return nlmp.av_pairs([ts])
+    if kind == "typical":
+        return nlmp.av_pairs([(2, nlmp.utf16("DOM")), (1, nlmp.utf16("SRV")), (4, nlmp.utf16("dom.example")), (3, nlmp.utf16("srv.dom.example")), ts])
+    if kind == "random":
+        ids = [rng.choice([1, 2, 3, 4, 5, 6, 8, 9, 10]) for _ in range(rng.randrange(0, 7))]
+        pairs = [(i, rbytes(rng, rng.choice([0, 1, 2, 8, 20, 300]))) for i in ids]
+        pairs.insert(rng.randrange(len(pairs) + 1), ts)
+        return nlmp.av_pairs(pairs)
+    if isinstance(kind, int):           # exactly `kind` bytes
+        need = kind - 12 - 4 - 4
+        return nlmp.av_pairs([ts, (9, rbytes(rng, need))])
+    raise ValueError(kind)
+
+def nla_auth_case(rng, dom, user, pw, flags, mode="pw", ti=None, pre=None, post=None):
+    ti = nla_target_info(rng) if ti is None else ti
+    sc, nonce, key = rbytes(rng, 8), rbytes(rng, 8), rbytes(rng, 16)
+    pre = rbytes(rng, rng.choice([0, 0, 6, 31])) if pre is None else pre
+    post = rbytes(rng, rng.choice([0, 0, 5])) if post is None else post
+    chal = nlmp.challenge_message(flags, sc, ti, target_name=pre, version=rbytes(rng, 8), post=post)
+    secret = dcps(pw) if mode == "pw" else nlmp.nt_hash(pw).hex()
+    return ("auth %s %s %s %s %s %s %s %s" % (mode, dcps(dom), dcps(user), secret, dcps(user.upper()), nonce.hex(), key.hex(), chal.hex()), None)
+
+def nla_gate_case(rng, dom, user, pw, flags, mode="pw", ra=False, cert=0):
+    import c01
+    c = c01.Cfg(rng, user, dom, pw, flags, mode=mode, ra=ra, cert=cert)
+    honest = c.s2c().seal(credssp.le_add(credssp.pubkey(c.cert), 1))
+    return (c.line([c.reply1, credssp.ts_request(pub_key_auth=honest)]), None)
+
+def nla_cases(tier, rng):
+    quick = tier == "quick"
+    cases = [("negotiate", None)]
+    names = list(NLA_CLASSES)
+    # ---- AUTHENTICATE: every credential class x all 16 flag combinations (x both modes for the first class member)
+    for cl in names:
+        for k, flags in enumerate(FLAG_COMBOS):
+            dom = NLA_CLASSES[rng.choice(names)](rng); user = NLA_CLASSES[cl](rng); pw = NLA_CLASSES[rng.choice(names)](rng)
+            cases.append(nla_auth_case(rng, dom, user, pw, flags, "pw" if k % 2 == 0 else "hash", ti=nla_target_info(rng, rng.choice(["bare", "typical", "random"]))))
+            cases.append(nla_auth_case(rng, NLA_CLASSES[cl](rng), NLA_CLASSES[rng.choice(names)](rng), pw, flags, "hash" if k % 2 == 0 else "pw"))
+    # non-BMP names of every surrogate shape, UNICODE on, all VERSION / TARGET_INFO combinations
+    for s in ["\U0001F600", "D\U00020000M", "user\U0001D800", "\U00010000\U0010FFFF", "a\U0001F511b\U0001F511"]:
+        for flags in FLAG_COMBOS[:4]:
+            cases.append(nla_auth_case(rng, s, s[::-1], s, flags, "pw", ti=nla_target_info(rng, "typical")))
+    # target-info sizes: bare timestamp .. an NT response of exactly 65535 bytes (sent) / 65536 (refused)
+    F = nlmp.CLIENT_FLAGS
+    for size in [24, 100, 255, 256, 1000, 4096] + ([65535 - 44, 65536 - 44] if True else []):
+        for flags in (F | F_TI, F | F_VER | F_TI):
+            cases.append(nla_auth_case(rng, "Dom", "User", "pw", flags, "pw", ti=nla_target_info(rng, size), pre=b"", post=b""))
+    for aid in range(1, 11):
+        if aid == 7: continue
+        for order in (0, 1):
+            pairs = [(aid, rbytes(rng, 6)), (7, rbytes(rng, 8))]
+            if order: pairs.reverse()
+            cases.append(nla_auth_case(rng, "Dom", "Usér", "pw", rng.choice(FLAG_COMBOS), "pw", ti=nlmp.av_pairs(pairs)))
+    # names at the 16-bit boundary of the descriptors
+    cases.append(nla_auth_case(rng, "d", "a" * 32767, "p", F, "pw"))
+    cases.append(nla_auth_case(rng, "D" * 32768, "u", "p", F, "hash"))
+    # the known finding C04-echo: server material echoed unvalidated (bytes after MsvAvEOL, MsvAvEOL with a value, timestamp not 8 bytes)
+    ts8 = (7, bytes(range(8)))
+    for ti in [nlmp.av_pairs([ts8]) + b"\x09\x09", nlmp.av_pairs([(2, b"D\x00"), ts8]) + b"\x00" * 4 + b"\x01",
+               nlmp.av_pairs([ts8])[:-4] + b"\x00\x00\x03\x00abc",
+               nlmp.av_pairs([(7, b"\x00\x01\x02\x03")]), nlmp.av_pairs([(7, b"")]), nlmp.av_pairs([(7, bytes(range(12))), (1, b"S\x00")])]:
+        cases.append(nla_auth_case(rng, "Dom", "User", "pw", F | F_VER, "pw", ti=ti, pre=b"", post=b""))
+    for _ in range(40 if quick else 1500):
+        dom, user, pw = (NLA_CLASSES[rng.choice(names)](rng) for _ in range(3))
+        cases.append(nla_auth_case(rng, dom, user, pw, rng.choice(FLAG_COMBOS), rng.choice(["pw", "hash"]), ti=nla_target_info(rng, "random")))
+    # ---- the four CredSSP DER writers, payload sizes across every DER length form
+    sizes = [0, 1, 2, 100, 113, 114, 115, 127, 128, 129, 200, 255, 256, 257, 1000, 65535, 65536] + ([] if quick else [70000, 200000])
+    for n in sizes:
+        b = rbytes(rng, min(n, 64)) + b"\xa5" * max(0, n - 64)
+        cases.append(("cssp req %s" % hx(b), None))
+        cases.append(("cssp auth %s %s" % (hx(b), hx(rbytes(rng, rng.choice([0, 16, 26, 300])))), None))
+        cases.append(("cssp auth %s %s" % (hx(rbytes(rng, 40)), hx(b)), None))
+        cases.append(("cssp info %s" % hx(b), None))
+        if n <= 65536:
+            cases.append(("cssp cred %s %s %s" % (hx(b), hx(rbytes(rng, 7)), hx(rbytes(rng, 9))), None))
+            cases.append(("cssp cred %s %s %s" % (hx(b""), hx(b), hx(b)), None))
+    for cl in names:
+        d, u, pw = (NLA_CLASSES[cl](rng), NLA_CLASSES[rng.choice(names)](rng), NLA_CLASSES[rng.choice(names)](rng))
+        cases.append(("cssp cred %s %s %s" % (hx(nlmp.utf16(d)), hx(nlmp.utf16(u)), hx(nlmp.utf16(pw))), None))
+        cases.append(("cssp cred %s %s %s" % (hx(d.encode()), hx(u.encode()), hx(pw.encode())), None))
+    # ---- whole CredSSP exchanges: the third message is unsealed and its TSCredentials parsed
+    gate = []
+    for cl in names:
+        for flags in (F, F | F_VER, F & ~F_UNI, (F | F_VER) & ~F_UNI):
+            dom, user, pw = NLA_CLASSES[rng.choice(names)](rng), NLA_CLASSES[cl](rng), NLA_CLASSES[rng.choice(names)](rng)
+            gate.append((dom, user, pw, flags, rng.choice(["pw", "hash"]), rng.random() < 0.25, rng.randrange(2)))
+    gate.append(("D\U00020000M", "user\U0001D800", "p\U0001F511", F | F_VER, "pw", False, 0))
+    gate.append(("Dom", "User", "secret", F | F_VER, "pw", True, 1))
+    gate.append(("Dom", "User", "secret", F, "hash", False, 1))
+    if quick: gate = gate[::2] + gate[-3:]
+    for g in gate: cases.append(nla_gate_case(rng, *g))
+    return cases
+
+# ================================================================== network level authentication: the oracle
+_ndrv = None
+_ncache = {}
+def coq_parse_nla(kind, hexbytes, extra=""):
+    """the extracted strict parsers of coq/StrictNla.v as a co-process: canonical text or 'reject'"""
+    global _ndrv
+    key = (kind, extra, hexbytes)
+    if key in _ncache: return _ncache[key]
+    if _ndrv is None or _ndrv.poll() is not None:
+        path = os.path.join(os.path.dirname(os.path.dirname(os.path.abspath(__file__))), "ocaml", "pdus", "driver")
+        _ndrv = subprocess.Popen([path], stdin=subprocess.PIPE, stdout=subprocess.PIPE)
+    _ndrv.stdin.write(("parsenla %s %s%s\n" % (kind, extra + " " if extra else "", hexbytes or "-")).encode()); _ndrv.stdin.flush()
+    r = _ndrv.stdout.readline().decode().strip()
+    if len(_ncache) < 100000: _ncache[key] = r
+    return r
+
+def both(kind, b, pyparse, pycanon, extra=""):
+    """-> (decoded, None) or (None, why): the python strict parser and the extracted Coq strict parser on the same bytes"""
+    try:
+        d = pyparse(b)
+        py = pycanon(d)
+    except S.Bad as e:
+        return None, "rejected by the strict parser: %s" % e
+    cq = coq_parse_nla(kind, bytes(b).hex(), extra)
+    if cq != py:
+        return None, "the extracted Coq strict parser says %r, the python strict parser %r" % (cq[:200], py[:200])
+    return d, None
+
+def challenge_parts(chal):
+    """what the client takes from a CHALLENGE_MESSAGE: flags, the TargetInfo bytes"""
+    flags = struct.unpack_from("<I", chal, 20)[0]
+    ti_len, _, ti_off = struct.unpack_from("<HHI", chal, 40)
+    return flags, chal[ti_off:ti_off + ti_len]
+
+def echo_wellformed(ti):
+    """TargetInfo = AV pairs (ids 1..10) closed by a zero-length MsvAvEOL, nothing after it, and the timestamp the client
+    picks (the last one) has 8 bytes: the hypothesis of C04_all_parse; its complement is the known finding C04-echo"""
+    try:
+        pairs, used = S.av_list(ti)
+    except S.Bad:
+        return False
+    ts = [v for i, v in pairs if i == 7]
+    return used == len(ti) and bool(ts) and len(ts[-1]) == 8
+
+def judge_authenticate(a, dom, user, flags, ti, nonce):
+    """decoded AUTHENTICATE fields against the configuration and the CHALLENGE"""
+    if a["flags"] != flags: return "NegotiateFlags %08x are not the negotiated ones %08x" % (a["flags"], flags)
+    if (a["version"] is not None) != bool(flags & F_VER): return "Version present = %s with NEGOTIATE_VERSION = %s" % (a["version"] is not None, bool(flags & F_VER))
+    uni = bool(flags & F_UNI)
+    for what, got, want in (("DomainName", a["domain"], dom), ("UserName", a["user"], user), ("Workstation", a["workstation"], "")):
+        if uni:
+            if got != ("u", cps(want)): return "%s decodes to %s, configured %s" % (what, S._nm(got), S._ns(cps(want)))
+        elif all(ord(c) < 0x80 for c in want):
+            if got != ("o", want.encode("ascii")): return "%s is %s, configured %r" % (what, S._nm(got), want)
+        # OEM character set with a non-ASCII name: not decidable (see ASSUMPTIONS)
+    pairs, _ = S.av_list(ti)
+    nt = a["nt"]
+    if nt["av"] != pairs: return "AV pairs of the NTLMv2 response are not the CHALLENGE's"
+    if nt["timestamp"] != [v for i, v in pairs if i == 7][-1]: return "TimeStamp is not the CHALLENGE's MsvAvTimestamp"
+    if nt["client_challenge"] != nonce: return "ChallengeFromClient is not the client nonce"
+    if len(a["key"]) != 16: return "EncryptedRandomSessionKey of %d bytes" % len(a["key"])
+    return None
+
+def oracle_nla(line, out):
+    t = line.split()
+    res = out.split(" #")[0].split()
+    if not res or res[0] in ("panic", "spin", "crashed"): return "the client crashed (%s) while building a token" % (res[0] if res else "no output")
+    op = t[0]
+    if op == "negotiate":
+        if res[0] != "ok": return "no NEGOTIATE token: " + " ".join(res)[:100]
+        g, why = both("neg", bytes.fromhex(res[1]), S.ntlm_negotiate, S.canon_negotiate)
+        if why: return "NEGOTIATE_MESSAGE " + why
+        want = {"flags": nlmp.CLIENT_FLAGS, "domain": b"", "workstation": b"", "version": None}
+        return None if g == want else "NEGOTIATE_MESSAGE decodes to %s" % S.canon_negotiate(g)
+    if op == "auth":
+        if res[0] != "ok": return None                 # a refusal emits nothing (whether it must exist is C15's question)
+        dom, user = uncps(t[2]), uncps(t[3])
+        nonce, chal = bytes.fromhex(t[6]), bytes.fromhex(t[8])
+        flags, ti = challenge_parts(chal)
+        a, why = both("auth", bytes.fromhex(res[1]), S.ntlm_authenticate, S.canon_authenticate)
+        if why: return "AUTHENTICATE_MESSAGE " + why
+        return judge_authenticate(a, dom, user, flags, ti, nonce)
+    if op == "cssp":
+        if not res[0].startswith("ok:"): return "DER writer failed: " + res[0]
+        b = bytes.fromhex(res[0][3:])
+        arg = lambda k: bytes.fromhex(t[k]) if t[k] != "-" else b""
+        if t[1] == "cred":
+            for uni in (False, True):
+                try:
+                    want = {"domain": S._name(uni, arg(2), "d"), "user": S._name(uni, arg(3), "u"), "password": S._name(uni, arg(4), "p")}
+                except S.Bad:
+                    continue                               # the test bytes are not UTF-16: only the OEM reading applies
+                c, why = both("creds", b, lambda x: S.ts_credentials(x, uni), S.canon_creds, "1" if uni else "0")
+                if why: return "TSCredentials " + why
+                if c != want: return "TSCredentials decodes to %s" % S.canon_creds(c)
+            return None
+        q, why = both("tsreq", b, S.ts_request, S.canon_ts_request)
+        if why: return "TSRequest " + why
+        want = {"version": 2, "nego": None, "auth_info": None, "pub_key_auth": None, "error_code": None, "client_nonce": None}
+        if t[1] == "req": want["nego"] = [arg(2)]
+        elif t[1] == "auth": want["nego"] = [arg(2)]; want["pub_key_auth"] = arg(3)
+        elif t[1] == "info": want["auth_info"] = arg(2)
+        return None if q == want else "TSRequest decodes to %s" % S.canon_ts_request(q)
+    if op == "csspgate":
+        dom, user, mode, ra = uncps(t[2]), uncps(t[3]), t[1], t[6] == "1"
+        pw = uncps(t[4]) if mode == "pw" else ""
+        rnd = bytes.fromhex(t[9]); nonce, key = rnd[:8], rnd[8:]
+        msgs = [bytes.fromhex(h) for h in res[2:]]
+        try:
+            chal = S.ts_request(bytes.fromhex(t[10].split(",")[0]))["nego"][0]
+            flags, ti = challenge_parts(chal)
+        except Exception:
+            chal = None
+        c2s = nlmp.session(key)[0]
+        for k, m in enumerate(msgs):
+            d, why = both("nla", m, S.nla_message, S.canon_nla)
+            if why: return "CredSSP message %d %s" % (k + 1, why)
+            if d[0] != "nla%d" % (k + 1): return "CredSSP message %d is a %s" % (k + 1, d[0])
+            if d[1] != 2: return "TSRequest version %d" % d[1]
+            if k == 0:
+                if d[2] != {"flags": nlmp.CLIENT_FLAGS, "domain": b"", "workstation": b"", "version": None}: return "NEGOTIATE_MESSAGE decodes to %s" % S.canon_negotiate(d[2])
+            elif k == 1:
+                if chal is None: return "an AUTHENTICATE without a CHALLENGE"
+                why = judge_authenticate(d[2], dom, user, flags, ti, nonce)
+                if why: return why
+                if c2s.unseal(d[3]) is None: return "pubKeyAuth does not unseal under the client-to-server keys"
+            else:
+                plain = c2s.unseal(d[2])
+                if plain is None: return "authInfo does not unseal under the client-to-server keys"
+                uni = bool(flags & F_UNI)
+                c, why = both("creds", plain, lambda x: S.ts_credentials(x, uni), S.canon_creds, "1" if uni else "0")
+                if why: return "TSCredentials " + why
+                for what, got, want in (("domainName", c["domain"], "" if ra else dom), ("userName", c["user"], "" if ra else user), ("password", c["password"], "" if ra else pw)):
+                    if uni:
+                        if got != ("u", cps(want)): return "TSPasswordCreds.%s decodes to %s, configured %s" % (what, S._nm(got), S._ns(cps(want)))
+                    elif all(ord(ch) < 0x80 for ch in want):
+                        if got != ("o", want.encode("ascii")): return "TSPasswordCreds.%s is %s" % (what, S._nm(got))
+        if res[0] == "ok" and len(msgs) != 3: return "cssp_connect reported success after %d messages" % len(msgs)
+        return None
+    return None
+
+NLA_OPS = ("negotiate", "auth", "cssp", "csspgate")
+
+def nla_class(line, out):
+    t = line.split(); r = out.split(" #")[0].split()
+    head = r[0].split(":")[0] if r else "crashed"
+    if t[0] == "auth":
+        try:
+            _, ti = challenge_parts(bytes.fromhex(t[8]))
+            if not echo_wellformed(ti): return "auth:echo:" + head
+        except Exception:
+            pass
+        return "auth:%s:%s" % (t[1], head)
+    if t[0] == "cssp": return "cssp:%s:%s" % (t[1], head)
+    if t[0] == "csspgate": return "csspgate:%s:%s" % (head, r[1] if len(r) > 1 else "")
+    return t[0] + ":" + head
+
+def nla_shape(line):
+    t = line.split()
+    if t[0] == "auth":
+        chal = bytes.fromhex(t[8]); flags, ti = challenge_parts(chal)
+        return ("auth", t[1], _cps_cls(t[2]), _cps_cls(t[3]), flags & (F_UNI | F_VER | F_TI | F_KX), min(len(ti) // 16, 12) if len(ti) < 60000 else len(ti))
+    if t[0] == "cssp": return ("cssp", t[1]) + tuple(min(len(x), 520) // 2 for x in t[2:])
+    if t[0] == "csspgate": return ("csspgate", t[1], _cps_cls(t[2]), _cps_cls(t[3]), t[6])
+    return (t[0],)
+
+def _cps_cls(s):
+    if s == "-": return "e"
+    c = [int(x, 16) for x in s.split(".")]
+    return ("n" if max(c) > 0xffff else "b" if max(c) > 0xff else "l" if max(c) > 0x7f else "a") + ("L" if len(c) > 100 else "")
+
 def gen_cases(tier, rng):
     quick = tier == "quick"
     cases = []
@@ -164,6 +473,7 @@ def gen_cases(tier, rng):
                                user=rand_string(rng), pw=rand_string(rng), events=ev))
     for _ in range(100 if quick else 3000):
         cases.append(core_case(rng.randrange(65536), rng.randrange(65536), rng.choice(LAYOUTS), rng.choice([0, 1, 2, 8]), rand_string(rng, 40)))
+    cases += nla_cases(tier, rng)
     return cases
 
 # ------------------------------------------------------------------ what the configuration says must be on the wire
@@ -240,6 +550,7 @@ def split_out(out):
     return (toks[0] if toks else "crashed"), [t for t in toks[1:] if t != "-"]
 
 def oracle(line, out, expect):
+    if line.split(" ", 1)[0] in NLA_OPS: return oracle_nla(line, out)
     res, frames = split_out(out)
     if res in ("panic", "spin", "crashed"): return "the client crashed (%s) while building its PDUs" % res
     if expect is None:
@@ -302,10 +613,12 @@ def _cls(s):
     return k + ("<15" if u < 15 else "15" if u == 15 else "16" if u == 16 else ">16")
 
 def classify(line, out):
+    if line.split(" ", 1)[0] in NLA_OPS: return nla_class(line, out)
     res, frames = split_out(out)
     return "%s:%s:%d" % (line.split()[0], res.split(":")[0], len(frames))
 
 def shape(line):
+    if line.split(" ", 1)[0] in NLA_OPS: return nla_shape(line)
     e = expect_of_line(line)
     if e is None: return ("?",)
     if e["op"] == "cr": return ("cr", e["offered"] & 0xf, e["ram"])
@@ -313,6 +626,7 @@ def shape(line):
     return ("pdus", _cls(e["name"]), _cls(e["dom"])[0], _cls(e["user"])[0], _cls(e["pw"])[0], e["version"] in (0x80001, 0x80004), len(e["events"]))
 
 def nontrivial(line, out):
+    if line.split(" ", 1)[0] in NLA_OPS: return out.startswith("ok")
     res, frames = split_out(out)
     return len(frames) > 0
 from ties import of as _tie_of; TIE_LAYOUTS, TIE_PINS, TIE_ENUMS = _tie_of("C04")   # static-tie lemmas (coq/Gen/Tie) this property depends on
